@@ -114,6 +114,30 @@ theorem C09_negative_indent_optionError (env : Env) (cfg : Config) (st : St) (t 
     step env cfg st (.preamble (.str t) enc (some n) le mime) = (st, .optionError) :=
   step_preamble_negative env cfg st t enc n hn le mime
 
+/-- **an unrepresentable `encoding=` value is rejected and nothing is written.**
+`valueRefused (.str n)` (Model/Writer.lean): `n` is not made of option-value characters
+(`''`, a space, `=`, `,`, non-ASCII, …) or is something `int()` accepts (`1252`, `1_0`, `-5`),
+so a reader would not get the name back.  A `new_change` / `new_file` call with such a name does
+not succeed and leaves the stream, the section stack and the previous-section marker as they
+were; when the call is in order the outcome is exactly `DiffXOptionValueError`. -/
+theorem C09_unrepresentable_value_rejected (env : Env) (cfg : Config) (st : St) (n : Name)
+    (hv : valueRefused (.str n) = true) (c : Call)
+    (hc : c = .newChange (some n) ∨ c = .newFile (some n)) :
+    (step env cfg st c).2 ≠ .ok ∧ (step env cfg st c).1 = st ∧
+    ((∀ p, st.prev = some p → sectionOf st c ∈ Spec.next p) → (step env cfg st c).2 = .optionError) := by
+  have hn : callEncoding c = some n := by rcases hc with rfl | rfl <;> rfl
+  obtain ⟨h1, h2⟩ := step_refused_enc env cfg st c n hn hv
+  refine ⟨h1, h2, fun ho => ?_⟩
+  rw [step_container_refused env cfg st c n hc hv ho]
+
+/-- the same for every call that carries the name as its own `encoding=` argument
+(`add_preamble`, `add_meta`, `add_diff` included): not accepted, writer unchanged.  (For a content
+call the exception may be another one — e.g. the codec lookup fails first.) -/
+theorem C09_unrepresentable_encoding_rejected (env : Env) (cfg : Config) (st : St) (c : Call) (n : Name)
+    (hn : callEncoding c = some n) (hv : valueRefused (.str n) = true) :
+    (step env cfg st c).2 ≠ .ok ∧ (step env cfg st c).1 = st :=
+  step_refused_enc env cfg st c n hn hv
+
 /-! ### tests -/
 /-- a state in which `C09_accept`'s hypotheses are met -/
 example : (init (some (Text.ofAscii b!"utf-8")) (Text.ofAscii b!"1.0")).2 = .ok := by decide
@@ -134,6 +158,26 @@ example :
       (.preamble (.str (Text.ofAscii b!"hi")) none (some (-1)) none none)).2 = .optionError ∧
     (step testEnv testCfg (init (some (Text.ofAscii b!"utf-8")) (Text.ofAscii b!"1.0")).1
       (.preamble (.str (Text.ofAscii b!"hi")) none (some 0) none none)).2 = .ok := by
+  decide
+
+/-- refused values: a name `int()` accepts, the empty name, a space, `=`, `,`, non-ASCII;
+and values that are not refused -/
+example : valueRefused (.str (Text.ofAscii b!"1252")) = true ∧ valueRefused (.str (Text.ofAscii b!"1_0")) = true ∧
+    valueRefused (.str (Text.ofAscii b!"-5")) = true ∧ valueRefused (.str []) = true ∧
+    valueRefused (.str (Text.ofAscii b!"utf 8")) = true ∧ valueRefused (.str (Text.ofAscii b!"a=b")) = true ∧
+    valueRefused (.str (Text.ofAscii b!"a,b")) = true ∧ valueRefused (.str [233]) = true ∧
+    valueRefused (.str (Text.ofAscii b!"utf-8")) = false ∧ valueRefused (.str (Text.ofAscii b!"cp1252")) = false ∧
+    valueRefused (.str (Text.ofAscii b!"1_")) = false ∧ valueRefused (.int (-3)) = false := by
+  decide
+
+/-- `new_change(encoding='1252')` on a fresh writer: option error; with `cp1252`: accepted -/
+example :
+    (step testEnv testCfg (init (some (Text.ofAscii b!"utf-8")) (Text.ofAscii b!"1.0")).1
+      (.newChange (some (Text.ofAscii b!"1252")))).2 = .optionError ∧
+    (step testEnv testCfg (init (some (Text.ofAscii b!"utf-8")) (Text.ofAscii b!"1.0")).1
+      (.newChange (some (Text.ofAscii b!"cp1252")))).2 = .ok ∧
+    (init (some (Text.ofAscii b!"1252")) (Text.ofAscii b!"1.0")).2 = .optionError ∧
+    (init (some []) (Text.ofAscii b!"1.0")).2 = .optionError := by
   decide
 
 end Diffx.C09
